@@ -13,13 +13,13 @@ WHAT = ('utxo', 'hist', 'headers')
 _SIMS = {}
 
 
-def sim_for(recipes, branch=b''):
-    key = (tuple(recipes), branch)
+def sim_for(recipes, branch=b'', activation=ACTIVATION):
+    key = (tuple(recipes), branch, activation)
     s = _SIMS.get(key)
     if s is None:
         if len(_SIMS) > 512:
             _SIMS.clear()
-        s = _SIMS[key] = chain.build_chain(list(recipes), ACTIVATION, branch)
+        s = _SIMS[key] = chain.build_chain(list(recipes), activation, branch)
     return s
 
 
@@ -44,11 +44,11 @@ def apply_branch(sim, recipe, orphaned):
     return chain.apply_recipe(sim, recipe)
 
 
-def make_branch(base_recipes, depth, branch_recipes, tag, base_sim=None):
+def make_branch(base_recipes, depth, branch_recipes, tag, base_sim=None, activation=ACTIVATION):
     '''Fork `depth` blocks below the tip of the base chain and grow the given recipes.'''
-    base_sim = base_sim or sim_for(base_recipes)
+    base_sim = base_sim or sim_for(base_recipes, b'', activation)
     fork_h = base_sim.height - depth
-    stem = sim_for(base_recipes[:len(base_recipes) - depth])
+    stem = sim_for(base_recipes[:len(base_recipes) - depth], b'', activation)
     assert stem.height == fork_h and stem.blocks[-1].hash == base_sim.blocks[fork_h].hash
     s = stem.copy(tag)
     orphaned = orphaned_txs(base_sim, fork_h)
@@ -94,14 +94,14 @@ def raw_tables(w):
 _FRESH = {}
 
 
-def fresh_observation(blocks, ref, limit):
+def fresh_observation(blocks, ref, limit, activation=ACTIVATION):
     '''What a real server that only ever saw `blocks` reports (cached per chain).'''
-    key = (tuple(b.hash for b in blocks), limit)
+    key = (tuple(b.hash for b in blocks), limit, activation)
     got = _FRESH.get(key)
     if got is None:
         if len(_FRESH) > 64:
             _FRESH.clear()
-        w = world.World(reorg_limit=limit, activation=ACTIVATION)
+        w = world.World(reorg_limit=limit, activation=activation)
         try:
             w.daemon.set_chain(blocks)
             w.start_sync()
@@ -114,8 +114,9 @@ def fresh_observation(blocks, ref, limit):
     return got
 
 
-def check_final(w, final_blocks, res, failures, limit, label='final', fresh=True, populate=False):
-    ref = observe.ref_at(final_blocks, len(final_blocks) - 1, ACTIVATION)
+def check_final(w, final_blocks, res, failures, limit, label='final', fresh=True, populate=False,
+                activation=ACTIVATION):
+    ref = observe.ref_at(final_blocks, len(final_blocks) - 1, activation)
     if not w.at_daemon_tip():
         failures.append((f'{label}:not-at-daemon-tip',
                          dict(db_height=w.db.state.height, bp_height=w.bp.state.height,
@@ -158,7 +159,7 @@ def check_final(w, final_blocks, res, failures, limit, label='final', fresh=True
             failures.append((f'{label}:history-row-beyond-tx-count', dict(hashX=hx, nums=nums)))
             break
     if fresh:
-        fobs, ftab, fcat = fresh_observation(final_blocks, ref, limit)
+        fobs, ftab, fcat = fresh_observation(final_blocks, ref, limit, activation)
         if fobs != obs:
             diff = [k for k in obs if obs[k] != fobs.get(k)]
             failures.append((f'{label}:differs-from-fresh-server', dict(fields=diff)))
@@ -174,11 +175,12 @@ def check_final(w, final_blocks, res, failures, limit, label='final', fresh=True
 def run_reorg_case(case, res, prop):
     '''case: tail (3 recipes), flush (over base heights), shape, d, branch (recipes), limit, ...'''
     base_recipes = PREFIX + list(case['tail'])
-    base = sim_for(base_recipes)
+    act = case.get('activation', ACTIVATION)
+    base = sim_for(base_recipes, b'', act)
     limit = case.get('limit', 200)
     shape = case['shape']
     failures = []
-    w = world.World(reorg_limit=limit, activation=ACTIVATION, prefetch=case.get('prefetch', 100),
+    w = world.World(reorg_limit=limit, activation=act, prefetch=case.get('prefetch', 100),
                     chunk_size=case.get('chunk'))
     final_blocks = None
     try:
@@ -196,18 +198,18 @@ def run_reorg_case(case, res, prop):
                 if cp >= 0:
                     w.loop.run_coro(w.db.header_branch_and_root(cp + 1, cp // 2), fire_timers=False)
             if shape == 'single':
-                y = make_branch(base_recipes, case['d'], case['branch'], b'Y', base)
+                y = make_branch(base_recipes, case['d'], case['branch'], b'Y', base, act)
                 final_blocks = y.blocks
                 w.daemon.set_chain(y.blocks)
                 w.poll()
             elif shape == 'double':
-                y = make_branch(base_recipes, case['d'], case['branch'], b'Y', base)
+                y = make_branch(base_recipes, case['d'], case['branch'], b'Y', base, act)
                 w.daemon.set_chain(y.blocks)
                 w.poll()
                 # second fork, off branch Y, d2 below its tip
                 d2 = case['d2']
                 stem_h = y.height - d2
-                z = _resim(y.blocks[:stem_h + 1], b'Z')
+                z = _resim(y.blocks[:stem_h + 1], b'Z', act)
                 orphaned = [t for b in y.blocks[stem_h + 1:] for t in b.txs if not t.is_coinbase()]
                 for r in case['branch2']:
                     apply_branch(z, r, orphaned)
@@ -216,7 +218,7 @@ def run_reorg_case(case, res, prop):
                 w.poll()
             elif shape == 'short':
                 # daemon first shows a branch not longer than what is indexed, then extends it
-                y = make_branch(base_recipes, case['d'], case['branch'], b'Y', base)
+                y = make_branch(base_recipes, case['d'], case['branch'], b'Y', base, act)
                 k = case['d'] - case.get('shorter', 0)      # equal (k=d) or shorter branch first
                 first = y.blocks[:base.height - case['d'] + k + 1]
                 w.daemon.set_chain(first)
@@ -232,11 +234,11 @@ def run_reorg_case(case, res, prop):
                 if mode == 'unchanged':
                     final_blocks = base.blocks
                 elif mode == 'extended':
-                    x = sim_for(base_recipes + ['new'])
+                    x = sim_for(base_recipes + ['new'], b'', act)
                     final_blocks = x.blocks
                     w.daemon.set_chain(x.blocks)
                 else:       # silently switched to another branch of equal height, then longer
-                    y = make_branch(base_recipes, case['d'], case['branch'], b'Y', base)
+                    y = make_branch(base_recipes, case['d'], case['branch'], b'Y', base, act)
                     eq = y.blocks[:base.height + 1]
                     w.daemon.set_chain(eq)
                     final_blocks = y.blocks
@@ -246,14 +248,14 @@ def run_reorg_case(case, res, prop):
                     w.poll()
                 if mode == 'unchanged':
                     # premise of C03: the daemon's chain ends up longer than what was indexed
-                    x = sim_for(base_recipes + ['new'])
+                    x = sim_for(base_recipes + ['new'], b'', act)
                     final_blocks = x.blocks
                     w.daemon.set_chain(x.blocks)
                     w.poll()
             elif shape == 'midbatch':
                 # the daemon extends on branch X; at scheduler step k it switches to branch Y
-                x = sim_for(base_recipes + case['ext'])
-                y = make_branch(base_recipes, case['d'], case['branch'], b'Y', base)
+                x = sim_for(base_recipes + case['ext'], b'', act)
+                y = make_branch(base_recipes, case['d'], case['branch'], b'Y', base, act)
                 final_blocks = y.blocks
                 w.daemon.set_chain(x.blocks)
                 k = case['k']
@@ -280,7 +282,7 @@ def run_reorg_case(case, res, prop):
         except world.Stalled as e:
             failures.append(('stalled', dict(error=repr(e))))
         else:
-            check_final(w, final_blocks, res, failures, limit)
+            check_final(w, final_blocks, res, failures, limit, activation=act)
             if w.loop.errors:
                 failures.append(('loop-error', dict(errors=[str(e.get('exception') or e.get('message'))
                                                             for e in w.loop.errors])))
@@ -294,9 +296,9 @@ def run_reorg_case(case, res, prop):
     return failures
 
 
-def _resim(blocks, tag):
+def _resim(blocks, tag, activation=ACTIVATION):
     '''A Sim whose symbolic UTXO state results from the given blocks.'''
-    s = chain.Sim(ACTIVATION, tag)
+    s = chain.Sim(activation, tag)
     if chain._COLLISIONS is None:
         chain._COLLISIONS = chain.load_collisions()
     s.collisions = chain._COLLISIONS
